@@ -51,7 +51,10 @@ Last0 == [moved |-> {}, gated |-> {}, gateOk |-> TRUE, firstNeeding |-> {}, writ
 \* perturbations happen while the rollout is in flight (rounds 2 .. 2 + 2 n)
 Perts == { [round |-> r, op |-> o, kid |-> c] : r \in 2..(2 + 2 * Len(Order)), o \in PertOps, c \in Kids }
 \* canonical plans: perturbations ordered by round; kid only matters for delkid / stuck
-PlanOK(p) == /\ \A i \in DOMAIN p : p[i].op # "delkid" => p[i].kid = Order[1]
+\* (scaledown removes the kid it names: the first child in hook order -- the one a rollout moves first, so it is on the
+\* latest revision when the scale-down comes -- or the last one)
+PlanOK(p) == /\ \A i \in DOMAIN p : p[i].op \notin {"delkid", "scaledown"} => p[i].kid = Order[1]
+             /\ \A i \in DOMAIN p : p[i].op = "scaledown" => p[i].kid \in {Order[1], Order[Len(Order)]}
              /\ \A i, j \in DOMAIN p : i < j => p[i].round <= p[j].round
              /\ \A i, j \in DOMAIN p : (i < j /\ p[i].round = p[j].round) => p[i].op # p[j].op
              /\ Cardinality({ i \in DOMAIN p : p[i].op = "spec" }) <= 1
@@ -137,7 +140,7 @@ Cur == [rev |-> rev, nonrev |-> nonrev, names |-> names, kid |-> kid, revs |-> r
 ApplyPerts(r) ==
   [Cur EXCEPT !.rev    = IF r = 1 \/ Has(r, "spec") THEN (IF rev < MaxRev THEN rev + 1 ELSE rev) ELSE rev,
               !.nonrev = IF Has(r, "nonrev") THEN nonrev + 1 ELSE nonrev,
-              !.names  = IF Has(r, "scaledown") THEN Kids \ {Order[Len(Order)]} ELSE IF Has(r, "scaleup") THEN Kids ELSE names,
+              !.names  = IF Has(r, "scaledown") THEN Kids \ {KidOf(r, "scaledown")} ELSE IF Has(r, "scaleup") THEN Kids ELSE names,
               !.kid    = IF Has(r, "delkid") THEN [kid EXCEPT ![KidOf(r, "delkid")] = NoKid]
                          ELSE IF r = 1 /\ preset THEN [c \in Kids |-> IF kid[c].live THEN [kid[c] EXCEPT !.v = 2, !.og = IF @ = "none" THEN "none" ELSE "lag"] ELSE kid[c]]
                          ELSE kid]
